@@ -33,6 +33,7 @@ func (c *parCache) Do(key interface{}, f func() interface{}) interface{} {
 	}
 	e := entryIface.(*cacheEntry)
 	if atomic.LoadUint32(&e.done) == 0 {
+		simLock(&e.mu, "parCache")
 		e.mu.Lock()
 		if atomic.LoadUint32(&e.done) == 0 {
 			e.result = f()
